@@ -42,6 +42,10 @@ NOTES.update({
  "w5-C18-m2": "missed at first: no low-contrast images in the workload; `faint` operation added; caught by oracle (b) deterministically (the solo reference runs in its own process), no race report",
  "w5-C18-m3": "NOT decided: the change starts goroutines inside the library; schedsim cannot schedule library-internal goroutines and says so: exit 2 'unsupported construct' (DESIGN 4.4), never a VIOLATION and never a pass",
 })
+NOTES.update({
+ "w5-C11-m2": "missed at first: the reference encoder never used FLG(0); GS characters early in the message, encoded either through the Mixed table or as FLG(0), added",
+ "w5-C11-m3": "NOT caught: the victim symbol is in the property's domain, but the trigger is a previous symbol carrying an ECI on the same Decoder instance; the reference encoder does not emit ECIs (the property lists the five code tables and binary shift)",
+})
 rows=[]
 for d in sorted(glob.glob('/verif/seeded/*/')):
     name=os.path.basename(d.rstrip('/'))
